@@ -2,8 +2,8 @@
    Property theorems only; each is closed by `exact` of a lemma from Proofs/ClassifyProofs.v (or is a concrete witness).
    Model: Model/Classify.v on top of Model/DataSet.v; the per-class densities are inputs of the model. *)
 From Coq Require Import ZArith List QArith Qcanon Bool Permutation.
-From SG Require Import Base.QcUtil Model.DataSet Model.Classify Proofs.DataSetVec Proofs.DataSetScale Proofs.DataSetRevert
-  Proofs.DataSetMove Proofs.ClassifyProofs.
+From SG Require Import Base.QcUtil Model.DataSet Model.Classify Model.ClassifyLearn Proofs.DataSetVec Proofs.DataSetScale Proofs.DataSetRevert
+  Proofs.DataSetMove Proofs.ClassifyProofs Proofs.ClassifyLearnProofs Proofs.ClassifyRange.
 Import ListNotations.
 Open Scope Qc_scope.
 
@@ -117,3 +117,122 @@ Proof.
   split; [vm_compute; discriminate|].
   do 3 eexists. split; [vm_compute; reflexivity|]. split; [vm_compute; reflexivity|]. split; vm_compute; reflexivity.
 Qed.
+
+(* ======================================================================================================================
+   Deepened part (Model/ClassifyLearn.v): the learning side is inside the model.  The iteration orders of the Python sets
+   (get_labels() = list(set(labels)), the index set of move_boundaries_to_front) and the shuffle permutation are inputs
+   validated by boolean checkers; every theorem holds for ALL inputs that pass them, all sizes, all dimensions. *)
+
+(* ---- Classification._initialize: shuffle, move_boundaries_to_front, even (per class) or uneven split: whatever the
+   permutation, the set orders, the percentage: learning and testing data together are exactly the scaled labelled samples
+   (nothing lost, nothing duplicated, labels attached) *)
+Theorem C19_learning_split_partitions : forall v sd perm idx lo even p learn test,
+  init_split v sd perm idx lo even p = Some (learn, test) -> Permutation (rows learn ++ rows test) (rows sd).
+Proof. exact init_split_partitions. Qed.
+Theorem C19_uneven_split_is_prefix : forall v sd idx lo p learn test,
+  init_split v sd None idx lo false p = Some (learn, test) ->
+  exists d2, move_boundaries_to_front idx sd = (d2, false) /\ rows learn ++ rows test = rows d2 /\
+             length (rows learn) = Nat.min (split_index p (length (rows d2))) (length (rows d2)).
+Proof. exact init_split_uneven_prefix. Qed.
+Print Assumptions C19_learning_split_partitions.
+Print Assumptions C19_uneven_split_is_prefix.
+
+(* ---- perform_classification + _classificate, for ANY density estimator de (a function of the training data of one class)
+   and ANY iteration order lo of the label set: the class assigned to a sample is a label lo[a] of the learning data such that
+   the estimator trained on the samples of THAT class is maximal at the sample's position among the estimators of all classes
+   (and it is the first maximal one in the order lo, as numpy.argmax).  The classificator of label l is trained on exactly the
+   learning samples carrying l; an admissible order gives every class of the learning data exactly one classificator. *)
+Theorem C19_class_is_trained_argmax : forall cv (de : ds -> row -> Qc) lo learn pts i,
+  cv_labels cv = true -> lo <> [] -> (i < length pts)%nat ->
+  let x := nth i pts [] in
+  let c := nth i (classify_learned cv de lo lo learn pts) 0%Z in
+  exists a, (a < length lo)%nat /\ c = nth a lo 0%Z /\ In c lo /\
+    (forall l, In l lo -> de (label_piece learn l) x <= de (label_piece learn c) x) /\
+    (forall b, (b < a)%nat -> de (label_piece learn (nth b lo 0%Z)) x < de (label_piece learn c) x).
+Proof. exact class_is_trained_argmax. Qed.
+Theorem C19_classificator_training_data : forall learn l,
+  rows (label_piece learn l) = filter (fun s => Z.eqb (snd s) l) (rows learn).
+Proof. exact classificator_training_data. Qed.
+Theorem C19_classificators_cover_classes : forall lo learn, label_order_ok lo (rows learn) = true ->
+  length (classificators (fun d _ => 0) lo learn) = length lo /\ NoDup lo /\
+  (forall l, In l lo <-> In l (map snd (rows learn))) /\
+  (forall l, In l lo -> rows (label_piece learn l) <> []).
+Proof. exact classificators_cover_classes. Qed.
+Print Assumptions C19_class_is_trained_argmax.
+Print Assumptions C19_classificator_training_data.
+Print Assumptions C19_classificators_cover_classes.
+
+(* ... and the statement is FALSE as soon as the label table is enumerated in another order than the classificators (e.g.
+   ascending, np.unique, while the classificators follow the set order 8, 1): both orders pass the checker, yet the sample
+   at the first class-8 learning sample (density 1 under the class-8 estimator, 0 under the class-1 estimator) gets class 1 *)
+Theorem C19_label_table_in_other_order_refuted :
+  exists (de : ds -> row -> Qc) lo_fit lo_table learn x,
+    label_order_ok lo_fit (rows learn) = true /\ label_order_ok lo_table (rows learn) = true /\
+    classify_learned c_repaired de lo_fit lo_table learn [x] = [1%Z] /\
+    de (label_piece learn 1%Z) x < de (label_piece learn 8%Z) x.
+Proof.
+  exists ex_de, [8%Z; 1%Z], [1%Z; 8%Z], exl_sd, (nth 0 (values exl_sd) []).
+  split; [vm_compute; reflexivity|]. split; [vm_compute; reflexivity|]. split; vm_compute; reflexivity.
+Qed.
+Print Assumptions C19_label_table_in_other_order_refuted.
+
+(* ---- continue_dimension_wise_refinement: the classes of ALL testing data are recomputed from the new densities (each one
+   class_of (arg-max), C19_class_is_argmax), as many as there are testing samples; scaling, label table, testing data stay *)
+Theorem C19_continue_reclassifies_testing_data : forall cv st dens st',
+  continue_refinement cv st dens = Some st' -> c_test_labels st <> [] ->
+  c_calc st' = classificate cv (c_class_labels st) dens /\ length (c_calc st') = length (c_test_labels st') /\
+  c_test_labels st' = c_test_labels st /\ learning_params st' = learning_params st.
+Proof. exact continue_reclassifies. Qed.
+Print Assumptions C19_continue_reclassifies_testing_data.
+
+(* ---- ALL histories of __call__ / test_data / evaluate / continue_dimension_wise_refinement on one object (test_data as
+   repaired): the calculated classes always match the testing samples in number, the learning-time parameters never change,
+   the testing labels only grow, and evaluate() returns the summary over all testing data - it raises exactly when the object
+   holds no testing data.  (C19_earlier_results_unchanged is the stronger prefix statement for histories without continued
+   refinement; continued refinement legitimately re-classifies, C19_continue_reclassifies_testing_data.) *)
+Theorem C19_bookkeeping_invariant_all_histories : forall v cv ops st, cv_store cv = true -> book_ok st ->
+  let st' := fold_left (xstep v cv) ops st in
+  book_ok st' /\ learning_params st' = learning_params st /\
+  (exists suf, c_test_labels st' = c_test_labels st ++ suf) /\
+  (c_test_labels st' = [] -> evaluate st' = None) /\
+  (c_test_labels st' <> [] -> evaluate st' = Some (summary (c_test_labels st') (c_calc st'))).
+Proof. exact bookkeeping_invariant. Qed.
+Print Assumptions C19_bookkeeping_invariant_all_histories.
+
+(* ---- the learning-time scaling puts every labelled sample inside the learned range: every coordinate of the scaled samples
+   lies in [0.005, 0.995] (also for constant columns and columns narrower than 10 eps), so the out-of-range filter
+   (0.0049 / 0.9951) would keep every learning and every testing sample, however the data are shuffled and split *)
+Theorem C19_learning_samples_in_range : forall d sd, wf d -> scale_range c_lo c_hi true d = (sd, false) ->
+  Forall (fun s => Forall (fun y => c_lo <= y /\ y <= c_hi) (fst s) /\ out_of_range (fst s) = false) (rows sd).
+Proof. exact learning_samples_in_range. Qed.
+Theorem C19_learning_and_testing_data_in_range : forall v d sd perm idx lo even p learn test, wf d ->
+  scale_range c_lo c_hi true d = (sd, false) -> init_split v sd perm idx lo even p = Some (learn, test) ->
+  Forall (fun s => out_of_range (fst s) = false) (rows learn ++ rows test).
+Proof. exact learning_and_testing_data_in_range. Qed.
+Print Assumptions C19_learning_samples_in_range.
+Print Assumptions C19_learning_and_testing_data_in_range.
+
+(* ---- non-vacuity of the deepened part: six scaled samples of the classes 8 and 1 (set order 8, 1), shuffled, boundary indices
+   enumerated in descending order, even split 1/2: the split succeeds, learning data hold both classes (order 8, 1 passes the
+   checker), testing data are non-empty; the toy estimator classifies the first learning samples of both classes correctly;
+   a history with test_data, continued refinement and evaluate satisfies the hypotheses of the invariant *)
+Example C19_nonvacuous_learning :
+  let d1 := fst (shuffle_with [5; 0; 3; 1; 4; 2]%nat exl_sd) in
+  exists learn test,
+    init_split as_found exl_sd (Some [5; 0; 3; 1; 4; 2]%nat) (rev (boundary_idx d1)) [8%Z; 1%Z] true Qchalf = Some (learn, test) /\
+    length (rows learn) = 4%nat /\ length (rows test) = 2%nat /\ label_order_ok [8%Z; 1%Z] (rows learn) = true /\
+    classify_learned c_repaired ex_de [8%Z; 1%Z] [8%Z; 1%Z] learn (map fst (rows test)) = map snd (rows test) /\
+    let st := mkC [] [] [] learn [8%Z; 1%Z] (map snd (rows test))
+                  (classify_learned c_repaired ex_de [8%Z; 1%Z] [8%Z; 1%Z] learn (map fst (rows test))) true in
+    book_ok st /\ c_test_labels st <> [] /\
+    exists st', continue_refinement c_repaired st [[0; 1]; [1; 0]] = Some st' /\ c_calc st' = [1%Z; 8%Z].
+Proof.
+  cbv zeta. do 2 eexists. split; [vm_compute; reflexivity|].
+  split; [vm_compute; reflexivity|]. split; [vm_compute; reflexivity|]. split; [vm_compute; reflexivity|].
+  split; [vm_compute; reflexivity|]. split; [split; vm_compute; reflexivity|]. split; [vm_compute; discriminate|].
+  eexists. split; vm_compute; reflexivity.
+Qed.
+
+(* non-vacuity of the in-range theorems: the hypotheses hold for the concrete four-sample data set of the first example *)
+Example C19_nonvacuous_in_range : wf ex_learn /\ exists sd, scale_range c_lo c_hi true ex_learn = (sd, false) /\ length (rows sd) = 4%nat.
+Proof. split; [split; [vm_compute; discriminate | repeat constructor]|]. eexists. split; vm_compute; reflexivity. Qed.
